@@ -16,6 +16,7 @@ func init() {
 	vh.Register("ring", bbr.NewVerifRing)
 	vh.Register("pnq", bbr.NewVerifPnq)
 	vh.Register("bbr", bbr.NewVerifBbr)
+	vh.Register("bbrfat", bbr.NewVerifBbrFat)
 	vh.RegisterConsts(bbr.VerifConstsC12)
 	vh.RegisterConsts(common.VerifConstsC12)
 }
